@@ -11,6 +11,8 @@ import EaselModel.Msa.LemmasSsCols
 import EaselModel.Msa.LemmasNoPk
 import EaselModel.Msa.LemmasC2WSimple
 import EaselModel.Msa.LemmasFull
+import EaselModel.Msa.LemmasPairs
+import EaselModel.Msa.LemmasClass
 /-! # C15 — alignment transformations keep the alignment well formed and the residues intact; WUSS round trips
 
 Property theorems only; proofs are glue on the lemmas of `EaselModel/Msa/Lemmas*.lean`.
@@ -398,6 +400,61 @@ theorem nopk_repaired_then_compacted (ss : Bytes) (mask : List Bool) (hnl : ∀ 
       wuss2ct ss' = some (breakPairs mask 1 ss.length ct) ∧ ∃ ct2, wuss2ct (maskFilter mask ss') = some ct2 :=
   repaired_then_compacted_balanced' ss mask ct h (wuss2ct_nopk_nested' ss hnl ct h) hm
 
+/-- READING HALF OF THE PSEUDOKNOTTED ROUND TRIP: for ANY symmetric pair table (crossing pairs allowed) and any string
+    that labels every pair with a bracket pair or an upper/lower-case letter pair and every unpaired position with an
+    unpaired symbol, such that pairs sharing a stack (all brackets; one letter) never cross, `esl_wuss2ct` returns
+    exactly that table -/
+theorem wuss2ct_of_class_labels (ss : Bytes) (ct : List Nat) (hct : CtOk ss.length ct) (hcn : ClassNested ct ss)
+    (hl : ClassLabels ct ss) : wuss2ct ss = some ct :=
+  wuss2ct_of_class_labels' ss ct hct hcn hl
+
+/-- RE-INDEXED PAIR SET AFTER COMPACTION, for ANY balanced WUSS string (pseudoknot letters included): if every removed
+    column carries an unpaired symbol, `esl_wuss2ct` reads from the compacted line exactly the pairs of the original
+    line with each position `p` renumbered to `newPos mask p` (its rank among the kept columns).  `tableOf z ps` is the
+    table `ct[l] = r, ct[r] = l` of the pair list `ps`. -/
+theorem compacted_pairs (ss : Bytes) (mask : List Bool) (hm : mask.length = ss.length)
+    (hrem : removesOnlyGaps isUnpairedSym mask ss) (ct : List Nat) (h : wuss2ct ss = some ct) :
+    ∃ ps, ct = tableOf (List.replicate (ss.length + 1) 0) ps ∧
+      wuss2ct (maskFilter mask ss) =
+        some (tableOf (List.replicate ((maskFilter mask ss).length + 1) 0) (relabelPs (newPos mask) ps)) :=
+  compacted_pairs' ss mask hm hrem ct h
+
+/-- `newPos` sends every kept column to its new index (1-based): the first kept column to 1, the next to 2, ... -/
+theorem newPos_agrees (mask : List Bool) : Agree (newPos mask) 1 1 mask := agree_newPosFrom mask 1 1
+
+/-- DNA/RNA `esl_msa_ColumnSubset` on an SS line without pseudoknot letters, BOTH steps, pair sets included: the repair
+    succeeds and spells exactly the pairs with both partners retained (`breakPairs`), and the compacted line is read
+    as those same pairs renumbered to the new columns -/
+theorem nopk_columnSubset_pairs (ss : Bytes) (mask : List Bool) (hnl : ∀ c ∈ ss, isAlpha c = false) (ct : List Nat)
+    (h : wuss2ct ss = some ct) (hm : mask.length = ss.length) :
+    ∃ ss' ps, removeBrokenFromSS ss mask = .ok ss' ∧ ss'.length = ss.length ∧
+      breakPairs mask 1 ss.length ct = tableOf (List.replicate (ss.length + 1) 0) ps ∧
+      wuss2ct (maskFilter mask ss') =
+        some (tableOf (List.replicate ((maskFilter mask ss').length + 1) 0) (relabelPs (newPos mask) ps)) := by
+  have hn := wuss2ct_nopk_nested' ss hnl ct h
+  have hct := wuss2ct_ctOk ss ct h
+  have hb := breakPairs_ctOk_nested mask ss.length ct hct
+  obtain ⟨ss', h1⟩ := ct2wuss_nested_ok ss.length _ hb.1 (hb.2 hn)
+  obtain ⟨hlen, hlab⟩ := ct2wuss_labels ss.length _ hb.1 (hb.2 hn) ss' h1
+  have h2 := wuss2ct_of_labels' ss' _ (by rw [hlen]; exact hb.1) (hb.2 hn) hlab
+  have hrem : removesOnlyGaps isUnpairedSym mask ss' := by
+    apply removesOnlyGaps_of_forall
+    intro i h1' h2' h3
+    have hz : (breakPairs mask 1 ss.length ct).getD (i+1) 0 = 0 := by
+      rw [breakPairs_spec' mask ss.length ct hct (i+1), if_neg]
+      intro hc
+      have := hc.2.1
+      simp only [Nat.add_sub_cancel] at this
+      have h4 : mask.getD i false = false := by
+        simp only [List.getD_eq_getElem?_getD, List.getElem?_eq_getElem h1', Option.getD_some] at h3 ⊢
+        exact h3
+      rw [h4] at this; cases this
+    have := (hlab (i+1) (by omega) (by omega)).1 hz
+    simpa using this
+  obtain ⟨ps, hp1, hp2⟩ := compacted_pairs' ss' mask (by rw [hm, hlen]) hrem _ h2
+  rw [hlen] at hp1
+  exact ⟨ss', ps, by simp [removeBrokenFromSS, h, h1], hlen, hp1, hp2⟩
+
 /-- ... in particular for the table of any bracket-only WUSS string: wuss -> ct -> wuss -> ct returns the same table
     whenever the table of the string is nested (the hypothesis `hn`; with pseudoknot letters the tables need not be
     nested and the round trip is PARTIAL: compared on every run against an independent reader, not proved) -/
@@ -453,6 +510,7 @@ example : (ct2wuss [0, 8, 3, 2, 0, 6, 5, 0, 1]).toOption = some [0x28, 0x3c, 0x3
 example : balancedClass 0 [0x3c, 0x41, 0x3e, 0x61] ∧ balancedClass 1 [0x3c, 0x41, 0x3e, 0x61] := by
   unfold balancedClass; decide
 example : ¬ balancedClass 0 [0x3c, 0x29] := by unfold balancedClass; decide
+example : (List.range 6).map (newPos [true, false, true, true, false]) = [0, 1, 2, 2, 3, 4] := by decide
 example : (ct2wuss [0, 3, 4, 1, 2]).toOption = some [0x3c, 0x41, 0x3e, 0x61] := by decide
 
 end EaselModel.Props.C15
